@@ -86,6 +86,22 @@ def check_adds(ctx, pmi, pmr, rng, seen_i, seen_r):
     rng.shuffle(arches)
     im = pmi.Images()
     rp = pmr.Rpms()
+    if rng.random() < 0.5:
+        # the builder objects REFUSED an older document a moment ago (its header was read, then a field was bad): what they
+        # accept afterwards is still governed by the rule, not by the version of the file that failed
+        ver = rng.choice(["1.0", "1.1", "0.3"])
+        bad_img = {"header": {"version": ver}, "payload": {"compose": {"id": "X-1-20200101.0", "type": "production", "date": "20200101", "respin": 0},
+                                                          "images": {"Server": {"x86_64": [{"path": "a.iso", "type": "no-such-type"}]}}}}
+        bad_rpm = {"header": {"version": ver}, "payload": {"compose": {"id": "X-1-20200101.0", "type": "production", "date": "20200101", "respin": 0},
+                                                          "rpms": {"Server": {"x86_64": {"not-a-nevra": {"also-not": {}}}}}}}
+        for o, d in ((im, bad_img), (rp, bad_rpm)):
+            try:
+                o.loads(json.dumps(d))
+            except Exception:
+                pass
+        im.images.clear()
+        rp.rpms.clear()
+        ctx.count("builder-refused-an-older-document-before")
     pool = [FM.gen_source_package(rng, i) for i in range(2)]
     n = 0
     filed_imgs, filed_ops = [], []
